@@ -1,0 +1,1 @@
+//! Hooks for property C02 (empty until needed).
